@@ -4,7 +4,7 @@
 //! interrupt flags after every batch.
 //!
 //! c14.edge | c14.step | c14.run | c14.io :
-//!   c14.<sub> stat=<n> lyc=<n> b=<list> | w=<4 hex: flags of the STAT write, of the LYC write> o=<6 hex per batch: LY STAT flags>
+//!   c14.<sub> stat=<n> lyc=<n> sc=<scene: 0 empty, 1 / 2 a picture with objects on> b=<list> | w=<4 hex: flags of the STAT write, of the LYC write> o=<6 hex per batch: LY STAT flags>
 //! c14.part (the same elapsed time under two partitions):
 //!   c14.part stat=<n> lyc=<n> a=<list> b=<list> | oa=<6 hex: final LY, final STAT, OR of all flags> ob=<6 hex>
 //! <list> = comma separated items `N` (one batch of N clocks) or `NxM` (M batches of N clocks).
@@ -45,10 +45,27 @@ fn push_obs(o: &mut String, ly: u8, st: u8, fl: u8) {
 }
 
 /// drive `VideoState` directly; returns (w, o)
-fn drive_video(stat: u8, lyc: u8, items: &[Item], every: bool) -> (String, String) {
-  let vram: Box<[u8]> = vec![0u8; 0x2000].into_boxed_slice();
-  let oam: Box<[u8]> = vec![0u8; 0xa0].into_boxed_slice();
+/// scene 0: empty VRAM and OAM, LCDC as at power-on.  scene 1: a picture - pattern tiles, forty objects spread over the
+/// screen (up to ten and more on a line), LCDC = 0x93 or 0x97 (objects on, 8x8 / 8x16).  The schedule does not look at the picture.
+fn scene(sc: u8) -> (Box<[u8]>, Box<[u8]>, Option<u8>) {
+  if sc == 0 { return (vec![0u8; 0x2000].into_boxed_slice(), vec![0u8; 0xa0].into_boxed_slice(), None); }
+  let vram: Vec<u8> = (0..0x2000usize).map(|i| crate::roms::rom_byte(i + 77)).collect();
+  let mut oam = vec![0u8; 0xa0];
+  for k in 0..40usize {
+    oam[4 * k] = (16 + (k * 37) % 150) as u8;
+    oam[4 * k + 1] = (8 + (k * 11) % 160) as u8;
+    oam[4 * k + 2] = crate::roms::rom_byte(k + 5);
+    oam[4 * k + 3] = crate::roms::rom_byte(k + 905) & 0xf0;
+  }
+  // a crowded band: fourteen objects on lines 60..67
+  for k in 0..14usize { oam[4 * k] = 76; }
+  (vram.into_boxed_slice(), oam.into_boxed_slice(), Some(if sc == 1 { 0x93 } else { 0x97 }))
+}
+
+fn drive_video(stat: u8, lyc: u8, sc: u8, items: &[Item], every: bool) -> (String, String) {
+  let (vram, oam, lcdc) = scene(sc);
   let mut v = VideoState::new();
+  if let Some(c) = lcdc { v.set_lcd_control(c); }
   let w1 = v.set_lcd_status(stat).as_u8();
   let w2 = v.set_ly_compare(lyc).as_u8();
   let mut o = String::new();
@@ -70,10 +87,10 @@ fn drive_video(stat: u8, lyc: u8, items: &[Item], every: bool) -> (String, Strin
 }
 
 /// the same through the I/O register file: FF41/FF45 writes, FF44/FF41 reads, IF bits 0..1
-fn drive_io(stat: u8, lyc: u8, items: &[Item]) -> (String, String) {
-  let vram: Box<[u8]> = vec![0u8; 0x2000].into_boxed_slice();
-  let oam: Box<[u8]> = vec![0u8; 0xa0].into_boxed_slice();
+fn drive_io(stat: u8, lyc: u8, sc: u8, items: &[Item]) -> (String, String) {
+  let (vram, oam, lcdc) = scene(sc);
   let mut io = IO::new();
+  if let Some(c) = lcdc { io.set_byte(0xff40, c); }
   io.set_byte(0xff0f, 0);
   io.set_byte(0xff41, stat);
   let w1 = io.get_byte(0xff0f) & 0x1b;
@@ -94,15 +111,15 @@ fn drive_io(stat: u8, lyc: u8, items: &[Item]) -> (String, String) {
   (format!("{:02x}{:02x}", w1, w2), o)
 }
 
-fn emit(sub: &str, stat: u8, lyc: u8, items: &[Item], w: &mut dyn Write) {
-  let (ws, o) = if sub == "io" { drive_io(stat, lyc, items) } else { drive_video(stat, lyc, items, true) };
-  writeln!(w, "c14.{} stat={} lyc={} b={} | w={} o={}", sub, stat, lyc, list_str(items), ws, o).unwrap();
+fn emit(sub: &str, stat: u8, lyc: u8, sc: u8, items: &[Item], w: &mut dyn Write) {
+  let (ws, o) = if sub == "io" { drive_io(stat, lyc, sc, items) } else { drive_video(stat, lyc, sc, items, true) };
+  writeln!(w, "c14.{} stat={} lyc={} sc={} b={} | w={} o={}", sub, stat, lyc, sc, list_str(items), ws, o).unwrap();
 }
 
-fn emit_part(stat: u8, lyc: u8, a: &[Item], b: &[Item], w: &mut dyn Write) {
-  let (_, oa) = drive_video(stat, lyc, a, false);
-  let (_, ob) = drive_video(stat, lyc, b, false);
-  writeln!(w, "c14.part stat={} lyc={} a={} b={} | oa={} ob={}", stat, lyc, list_str(a), list_str(b), oa, ob).unwrap();
+fn emit_part(stat: u8, lyc: u8, sc: u8, a: &[Item], b: &[Item], w: &mut dyn Write) {
+  let (_, oa) = drive_video(stat, lyc, sc, a, false);
+  let (_, ob) = drive_video(stat, lyc, sc, b, false);
+  writeln!(w, "c14.part stat={} lyc={} sc={} a={} b={} | oa={} ob={}", stat, lyc, sc, list_str(a), list_str(b), oa, ob).unwrap();
 }
 
 /// a random partition of at least `min_total` clocks into multiples of 4
@@ -172,12 +189,13 @@ fn find<'a>(line: &'a str, key: &str) -> Option<&'a str> {
 fn replay(sub: &str, line: &str, w: &mut dyn Write) {
   let stat: u8 = find(line, "stat").and_then(|s| s.parse().ok()).expect("stat=");
   let lyc: u8 = find(line, "lyc").and_then(|s| s.parse().ok()).expect("lyc=");
+  let sc: u8 = find(line, "sc").and_then(|s| s.parse().ok()).unwrap_or(0);
   let b = parse_list(find(line, "b").expect("b="));
   if sub == "part" {
     let a = parse_list(find(line, "a").expect("a="));
-    emit_part(stat, lyc, &a, &b, w);
+    emit_part(stat, lyc, sc, &a, &b, w);
   } else {
-    emit(sub, stat, lyc, &b, w);
+    emit(sub, stat, lyc, sc, &b, w);
   }
 }
 
@@ -203,7 +221,7 @@ pub fn run(sub: &str, opts: &Opts, w: &mut dyn Write) {
       }
       let mut i = 0usize;
       for lyc in lycs { for mask in 0..16u8 {
-        if i % sn == si { emit("edge", mask << 3, lyc, &items, w); }
+        if i % sn == si { emit("edge", mask << 3, lyc, (i % 3) as u8, &items, w); }
         i += 1;
       }}
     },
@@ -214,7 +232,7 @@ pub fn run(sub: &str, opts: &Opts, w: &mut dyn Write) {
       let ticks = if opts.thorough { 3 * FRAME / 4 + 120 } else { FRAME / 4 + 240 };
       let mut i = 0usize;
       for lyc in lycs { for mask in 0..16u8 {
-        if i % sn == si { emit("step", mask << 3, lyc, &[(4, ticks)], w); }
+        if i % sn == si { emit("step", mask << 3, lyc, ((i / 3) % 3) as u8, &[(4, ticks)], w); }
         i += 1;
       }}
     },
@@ -233,7 +251,7 @@ pub fn run(sub: &str, opts: &Opts, w: &mut dyn Write) {
         let style = match rng.below(16) { 0 | 1 => 0, 2 | 3 => 1, 4 | 5 | 6 => 2, 7 | 8 => 3, 9 | 10 => 4, 11 | 12 => 5, 13 => 6, _ => 7 };
         let min_total = 3 * FRAME + 4 * rng.below(FRAME as u64 / 4) as usize;
         let items = gen_partition(&mut rng, min_total, style);
-        emit(sub, stat, lyc, &items, w);
+        emit(sub, stat, lyc, (i % 3) as u8, &items, w);
       }
     },
     // the same elapsed time, two partitions
@@ -248,7 +266,7 @@ pub fn run(sub: &str, opts: &Opts, w: &mut dyn Write) {
         let a = gen_exact(&mut rng, tot, sa);
         // the second partition: one single call in a quarter of the cases
         let b = if rng.chance(1, 4) { vec![(tot, 1)] } else { let sb = 1 + rng.below(7); gen_exact(&mut rng, tot, sb) };
-        emit_part(stat, lyc, &a, &b, w);
+        emit_part(stat, lyc, (i % 3) as u8, &a, &b, w);
       }
     },
     _ => {
